@@ -38,9 +38,22 @@ def _mkey(x):
     return "%s/%s/%s" % (x["m"], x["a"], x["b"])
 
 
-def _judge(rec, j, got):
+def _want(rec, j, resolved=None):
+    """the specification's verdicts after step j as booleans: "T" / "F" from TxValidate; "vs" = the commitments
+    hold but the unlocking data was re-encoded / extended: taken from VerifyScript (resolved: pos -> bool)"""
+    w = rec["vds"][j]
+    v = []
+    for p, x in enumerate(w["v"]):
+        if x == "vs":
+            v.append(resolved[p])
+        else:
+            v.append(x == "T" or x is True)
+    return {"v": v, "bad": sum(1 for b in v if not b)}
+
+
+def _judge(rec, j, got, resolved=None):
     """compare the API's verdicts after step j with the specification's"""
-    want = rec["vds"][j]
+    want = _want(rec, j, resolved)
     x = rec["acts"][j]
     fails = []
     base = "mut=%s" % x["m"]
@@ -69,6 +82,7 @@ def _judge(rec, j, got):
 def _replay_chunk(recs):
     """recs: histories of one case in depth-first order"""
     fails = []
+    pend = []
     stats = {"steps": 0, "judged": 0, "classes": set()}
     stack = []
     cur = None
@@ -102,14 +116,53 @@ def _replay_chunk(recs):
             stack.append((keys[j], t, got))
             stats["steps"] += 1
         j = len(keys) - 1
-        fails += _judge(rec, j, stack[j][2])
+        vs = [p for p, x in enumerate(rec["vds"][j]["v"]) if x == "vs"]
+        if vs and "exc" not in stack[j][2]:
+            # verdict delegated to the consensus specification: hand the concrete spends to the main process
+            pend.append(({k: rec[k] for k in ("nin", "nout", "H", "S", "K", "acts", "vds")}, j, stack[j][2],
+                         {p: stack[j][1].spend_case(p) for p in vs}))
+        else:
+            fails += _judge(rec, j, stack[j][2])
         stats["judged"] += 1
         x = rec["acts"][j]
         stats["classes"].add((tuple(rec["S"]), tuple(rec["H"]), tuple(rec["K"]), x["m"], json.dumps(rec["vds"][j]["v"])))
-    return fails, stats
+    return fails, stats, pend
 
 
-def replay_records(records, procs=NPROC):
+def _vs_sig_oracle(c, sig, key, code, sv):
+    """does this signature verify under this key for the script code / signature version the interpreter
+    specification asks about, in the transaction the case carries (reference ECDSA of vf.drv.script)"""
+    from ..drv import script as SC
+    spend, idx = SC.spend_tx_of(c)
+    return SC.sig_oracle_tx(sig, key, code, sv, spend, idx)
+
+
+def resolve_delegated(ctx, pend):
+    """run the delegated spends through VerifyScript.tla (MC_ScriptRun) and judge the pending steps"""
+    from ..scriptrun import spec_run
+    uniq = {}
+    for rec, j, got, cases in pend:
+        for p, cs in cases.items():
+            k = json.dumps(cs["tx"], sort_keys=True)
+            uniq.setdefault(k, cs)
+    keys = sorted(uniq)
+    res = spec_run(ctx, [uniq[k] for k in keys], _vs_sig_oracle, label="C06 unlocking-data mutations")
+    verdict = {}
+    for k, r in zip(keys, res):
+        if r["status"] not in ("ok", "fail"):
+            raise MachineryError("VerifyScript gave no verdict for a delegated spend: %s" % (r,))
+        verdict[k] = r["status"] == "ok"
+    fails = []
+    nvs = {"ok": 0, "fail": 0}
+    for rec, j, got, cases in pend:
+        resolved = {p: verdict[json.dumps(cs["tx"], sort_keys=True)] for p, cs in cases.items()}
+        for b in resolved.values():
+            nvs["ok" if b else "fail"] += 1
+        fails += _judge(rec, j, got, resolved)
+    return fails, len(keys), nvs
+
+
+def replay_records(records, procs=NPROC, ctx=None):
     import multiprocessing as mp
     bycase = {}
     for r in records:
@@ -133,12 +186,21 @@ def replay_records(records, procs=NPROC):
     else:
         res = [_replay_chunk(c) for c in chunks]
     fails = []
-    tot = {"steps": 0, "judged": 0, "classes": set()}
-    for f, st in res:
+    tot = {"steps": 0, "judged": 0, "classes": set(), "delegated": 0}
+    pend = []
+    for f, st, pd in res:
         fails += f
+        pend += pd
         tot["steps"] += st["steps"]
         tot["judged"] += st["judged"]
         tot["classes"] |= st["classes"]
+    if pend:
+        if ctx is None:
+            raise MachineryError("delegated verdicts need the TLC context")
+        f2, n, nvs = resolve_delegated(ctx, pend)
+        fails += f2
+        tot["delegated"] = n
+        tot["vs"] = nvs
     return fails, tot
 
 
@@ -382,8 +444,8 @@ def run(ctx):
         ctx.selftest("model_rejects_cache_keyed_by_hash_type", (not r.ok) and r.violated == "ReportedIsCurrent")
 
     if want("replay") or any(o.startswith("replay_") for o in (only or ())):
-        plans = (["MC_TxReplay_one", "MC_TxReplay_q", "MC_TxReplay_walk_q"] if q else
-                 ["MC_TxReplay_one", "MC_TxReplay_t", "MC_TxReplay_deep", "MC_TxReplay_walk_t"])
+        plans = (["MC_TxReplay_one", "MC_TxReplay_u", "MC_TxReplay_q", "MC_TxReplay_walk_q"] if q else
+                 ["MC_TxReplay_one", "MC_TxReplay_u", "MC_TxReplay_u2", "MC_TxReplay_t", "MC_TxReplay_deep", "MC_TxReplay_walk_t"])
         for cfg in plans:
             if only is not None and "replay" not in only and not any(o.startswith("replay_") and o[7:] in cfg for o in only):
                 continue
@@ -392,7 +454,11 @@ def run(ctx):
                     keep_records=False, timeout=3000)
             if not recs:
                 raise MachineryError("no history printed by %s" % cfg)
-            fails, tot = replay_records(recs)
+            fails, tot = replay_records(recs, ctx=ctx)
+            if tot["delegated"]:
+                ctx.log("  %d distinct spends with re-encoded / extended unlocking data decided by VerifyScript.tla: %s" % (tot["delegated"], tot["vs"]))
+                if tot["vs"]["ok"] == 0 or tot["vs"]["fail"] == 0:
+                    raise MachineryError("vacuity: VerifyScript decided every delegated spend the same way: %s" % (tot["vs"],))
             ctx.log("replayed %d histories of %s: %d mutation steps executed and validated (long-lived + fresh object), %d disagreements" % (
                 len(recs), cfg, tot["steps"], len(fails)))
             ctx.replayed += len(recs)
